@@ -7,24 +7,174 @@ package parse
 
 //@ default mode int
 
-// parseAssignNode (assumed summary; the expression parser below it is not under
-// contract): on success it returns an Assign node. An expression statement such as
-// "x" or "f()" has no left-hand side: "LHS is nil for an 'expression statement'".
-//@ func (*parser).parseAssignNode
-//@   prop C11
-//@   trusted summary of the assignment parser: on success a non-nil Assign node (whose LHS may be nil); only the parser's own cursor changes
-//@   requires p != nil
-//@   ensures implies(result1 == nil, result0 != nil)
-//@   modifies *p
+// ---- no-panic sweep of the recursive-descent parser ----
+// Every parse function only moves the cursor p.src forward inside the token slice it
+// was given (same backing array, same end), never indexes past it, never dereferences
+// nil, keeps the loop stack balanced on success, and on success returns a non-nil node;
+// every loop consumes at least one token per iteration. Recursion depth is not bounded
+// (see DESIGN.md, observations).
+//@ spec pOK(p *parser) bool = p != nil && p.tm != nil && forall(k, 0, len(p.loops), p.loops[k] != nil)
 
 //@ func (*parser).line
 //@   prop C11
 //@   pure
 //@   requires p != nil
 
-// parseIterateAssignNode: no nil dereference whatever parseAssignNode returns.
-//@ func (*parser).parseIterateAssignNode
+//@ func (*parser).peek1
+//@   prop C11
+//@   pure
+//@   requires p != nil
+//@   ensures implies(result != 0, len(p.src) > 0 && result == p.src[0].ID) && implies(len(p.src) > 0, result == p.src[0].ID)
+
+//@ func (*parser).parseEffect
 //@   prop C11
 //@   requires p != nil
-//@   ensures implies(result1 == nil, result0 != nil)
-//@   modifies *p
+//@   ensures base(p.src) == old(base(p.src)) && off(p.src) >= old(off(p.src)) && off(p.src) + len(p.src) == old(off(p.src) + len(p.src))
+//@   modifies p.src
+
+//@ func (*parser).parseIdent
+//@   prop C11
+//@   requires pOK(p)
+//@   ensures[cursor] pOK(p) && (base(p.loops) == old(base(p.loops)) || fresh(base(p.loops))) && base(p.src) == old(base(p.src)) && off(p.src) >= old(off(p.src)) && off(p.src) + len(p.src) == old(off(p.src) + len(p.src))
+//@   ensures[success] implies(result1 == nil, len(p.src) < old(len(p.src)) && len(p.loops) == old(len(p.loops)))
+//@   ensures[one] implies(result1 == nil, len(p.src) == old(len(p.src)) - 1)
+//@   modifies p.src
+
+//@ func (*parser).parseQualifiedIdent
+//@   prop C11
+//@   requires pOK(p)
+//@   ensures[cursor] pOK(p) && (base(p.loops) == old(base(p.loops)) || fresh(base(p.loops))) && base(p.src) == old(base(p.src)) && off(p.src) >= old(off(p.src)) && off(p.src) + len(p.src) == old(off(p.src) + len(p.src))
+//@   ensures[success] implies(result2 == nil, len(p.src) < old(len(p.src)) && len(p.loops) == old(len(p.loops)))
+//@   modifies p.src
+
+//@ func (*parser).parseQualifiedIdentAsTypeExprNode
+//@   prop C11
+//@   requires pOK(p)
+//@   ensures[cursor] pOK(p) && (base(p.loops) == old(base(p.loops)) || fresh(base(p.loops))) && base(p.src) == old(base(p.src)) && off(p.src) >= old(off(p.src)) && off(p.src) + len(p.src) == old(off(p.src) + len(p.src))
+//@   ensures[success] implies(result1 == nil, result0 != nil && len(p.src) < old(len(p.src)) && len(p.loops) == old(len(p.loops)))
+//@   modifies p.src
+
+//@ func (*parser).parseIdentAsExprNode
+//@   prop C11
+//@   requires pOK(p)
+//@   ensures[cursor] pOK(p) && (base(p.loops) == old(base(p.loops)) || fresh(base(p.loops))) && base(p.src) == old(base(p.src)) && off(p.src) >= old(off(p.src)) && off(p.src) + len(p.src) == old(off(p.src) + len(p.src))
+//@   ensures[success] implies(result1 == nil, result0 != nil && len(p.src) < old(len(p.src)) && len(p.loops) == old(len(p.loops)))
+//@   modifies p.src
+
+//@ func (*parser).parseLabel
+//@   prop C11
+//@   requires pOK(p)
+//@   ensures[cursor] pOK(p) && (base(p.loops) == old(base(p.loops)) || fresh(base(p.loops))) && base(p.src) == old(base(p.src)) && off(p.src) >= old(off(p.src)) && off(p.src) + len(p.src) == old(off(p.src) + len(p.src))
+//@   ensures[success] implies(result1 == nil, len(p.loops) == old(len(p.loops)))
+//@   modifies p.src
+
+// The element parser handed to parseList is one of parseFieldNode, parseExtraFieldNode,
+// parseAssertNode, parseArgNode, parseIdentAsExprNode, parseQualifiedIdentAsTypeExprNode,
+// parseIterateAssignNode, parsePossibleListExprNode: this is their common (proved) contract.
+//@ func fv (*parser).parseList.parseElem
+//@   trusted_contract the element parsers passed to parseList are parser methods that each satisfy this contract (proved separately for each of them)
+//@   requires pOK(arg0)
+//@   ensures pOK(arg0) && (base(arg0.loops) == old(base(arg0.loops)) || fresh(base(arg0.loops))) && base(arg0.src) == old(base(arg0.src)) && off(arg0.src) >= old(off(arg0.src)) && off(arg0.src) + len(arg0.src) == old(off(arg0.src) + len(arg0.src))
+//@   ensures implies(result1 == nil, result0 != nil && len(arg0.loops) == old(len(arg0.loops)))
+//@   modifies *arg0, mem(arg0.loops)
+
+//@ func (*parser).parseList
+//@   prop C11
+//@   requires pOK(p) && stop != 0
+//@   ensures[cursor] pOK(p) && (base(p.loops) == old(base(p.loops)) || fresh(base(p.loops))) && base(p.src) == old(base(p.src)) && off(p.src) >= old(off(p.src)) && off(p.src) + len(p.src) == old(off(p.src) + len(p.src))
+//@   ensures[success] implies(result1 == nil, len(p.loops) == old(len(p.loops)))
+//@   ensures[elems] implies(result1 == nil, forall(k, 0, len(result0), result0[k] != nil))
+//@   ensures[consumed] implies(result1 == nil && (stop == t.IDCloseParen || stop == t.IDCloseBracket), len(p.src) < old(len(p.src)))
+//@   modifies *p, mem(p.loops)
+//@   loop 1 invariant pOK(p) && (base(p.loops) == old(base(p.loops)) || fresh(base(p.loops))) && base(p.src) == old(base(p.src)) && off(p.src) >= old(off(p.src)) && off(p.src) + len(p.src) == old(off(p.src) + len(p.src)) && len(p.loops) == old(len(p.loops)) && forall(k, 0, len(ret), ret[k] != nil) && (isnil(base(ret)) || fresh(base(ret)))
+//@   loop 1 decreases len(p.src)
+
+//@ func (*parser).parseFieldNode
+//@   prop C11
+//@   requires pOK(p)
+//@   ensures[cursor] pOK(p) && (base(p.loops) == old(base(p.loops)) || fresh(base(p.loops))) && base(p.src) == old(base(p.src)) && off(p.src) >= old(off(p.src)) && off(p.src) + len(p.src) == old(off(p.src) + len(p.src))
+//@   ensures[success] implies(result1 == nil, result0 != nil && len(p.src) < old(len(p.src)) && len(p.loops) == old(len(p.loops)))
+//@   modifies *p, mem(p.loops)
+
+//@ func (*parser).parseExtraFieldNode
+//@   prop C11
+//@   requires pOK(p)
+//@   ensures[cursor] pOK(p) && (base(p.loops) == old(base(p.loops)) || fresh(base(p.loops))) && base(p.src) == old(base(p.src)) && off(p.src) >= old(off(p.src)) && off(p.src) + len(p.src) == old(off(p.src) + len(p.src))
+//@   ensures[success] implies(result1 == nil, result0 != nil && len(p.src) < old(len(p.src)) && len(p.loops) == old(len(p.loops)))
+//@   modifies *p, mem(p.loops)
+//@   loop 1 invariant pOK(p) && (base(p.loops) == old(base(p.loops)) || fresh(base(p.loops))) && base(p.src) == old(base(p.src)) && off(p.src) >= old(off(p.src)) && off(p.src) + len(p.src) == old(off(p.src) + len(p.src)) && typ != nil && n != nil && len(p.loops) == old(len(p.loops)) && len(p.src) < old(len(p.src))
+
+//@ func (*parser).parseFieldNode1
+//@   prop C11
+//@   requires pOK(p)
+//@   ensures[cursor] pOK(p) && (base(p.loops) == old(base(p.loops)) || fresh(base(p.loops))) && base(p.src) == old(base(p.src)) && off(p.src) >= old(off(p.src)) && off(p.src) + len(p.src) == old(off(p.src) + len(p.src))
+//@   ensures[success] implies(result1 == nil, result0 != nil && len(p.src) < old(len(p.src)) && len(p.loops) == old(len(p.loops)))
+//@   modifies *p, mem(p.loops)
+
+//@ func (*parser).parseTypeExpr
+//@   prop C11
+//@   requires pOK(p)
+//@   ensures[cursor] pOK(p) && (base(p.loops) == old(base(p.loops)) || fresh(base(p.loops))) && base(p.src) == old(base(p.src)) && off(p.src) >= old(off(p.src)) && off(p.src) + len(p.src) == old(off(p.src) + len(p.src))
+//@   ensures[success] implies(result1 == nil, result0 != nil && len(p.src) < old(len(p.src)) && len(p.loops) == old(len(p.loops)))
+//@   modifies *p, mem(p.loops)
+
+//@ func (*parser).parseBracket
+//@   prop C11
+//@   requires pOK(p) && sep != 0
+//@   ensures[cursor] pOK(p) && (base(p.loops) == old(base(p.loops)) || fresh(base(p.loops))) && base(p.src) == old(base(p.src)) && off(p.src) >= old(off(p.src)) && off(p.src) + len(p.src) == old(off(p.src) + len(p.src))
+//@   ensures[success] implies(err == nil, len(p.src) < old(len(p.src)) && len(p.loops) == old(len(p.loops)))
+//@   modifies *p, mem(p.loops)
+
+//@ func (*parser).parseArgNode
+//@   prop C11
+//@   requires pOK(p)
+//@   ensures[cursor] pOK(p) && (base(p.loops) == old(base(p.loops)) || fresh(base(p.loops))) && base(p.src) == old(base(p.src)) && off(p.src) >= old(off(p.src)) && off(p.src) + len(p.src) == old(off(p.src) + len(p.src))
+//@   ensures[success] implies(result1 == nil, result0 != nil && len(p.src) < old(len(p.src)) && len(p.loops) == old(len(p.loops)))
+//@   modifies *p, mem(p.loops)
+
+//@ func (*parser).parseVarNode
+//@   prop C11
+//@   requires pOK(p)
+//@   ensures[cursor] pOK(p) && (base(p.loops) == old(base(p.loops)) || fresh(base(p.loops))) && base(p.src) == old(base(p.src)) && off(p.src) >= old(off(p.src)) && off(p.src) + len(p.src) == old(off(p.src) + len(p.src))
+//@   ensures[success] implies(result1 == nil, result0 != nil && len(p.src) < old(len(p.src)) && len(p.loops) == old(len(p.loops)))
+//@   modifies *p, mem(p.loops)
+
+//@ func (*parser).parsePossibleListExprNode
+//@   prop C11
+//@   requires pOK(p)
+//@   ensures[cursor] pOK(p) && (base(p.loops) == old(base(p.loops)) || fresh(base(p.loops))) && base(p.src) == old(base(p.src)) && off(p.src) >= old(off(p.src)) && off(p.src) + len(p.src) == old(off(p.src) + len(p.src))
+//@   ensures[success] implies(result1 == nil, result0 != nil && len(p.src) < old(len(p.src)) && len(p.loops) == old(len(p.loops)))
+//@   modifies *p, mem(p.loops)
+
+//@ func (*parser).parsePossibleListExpr
+//@   prop C11
+//@   requires pOK(p)
+//@   ensures[cursor] pOK(p) && (base(p.loops) == old(base(p.loops)) || fresh(base(p.loops))) && base(p.src) == old(base(p.src)) && off(p.src) >= old(off(p.src)) && off(p.src) + len(p.src) == old(off(p.src) + len(p.src))
+//@   ensures[success] implies(result1 == nil, result0 != nil && len(p.src) < old(len(p.src)) && len(p.loops) == old(len(p.loops)))
+//@   modifies *p, mem(p.loops)
+
+//@ func (*parser).parseExpr
+//@   prop C11
+//@   requires pOK(p)
+//@   ensures[cursor] pOK(p) && (base(p.loops) == old(base(p.loops)) || fresh(base(p.loops))) && base(p.src) == old(base(p.src)) && off(p.src) >= old(off(p.src)) && off(p.src) + len(p.src) == old(off(p.src) + len(p.src))
+//@   ensures[success] implies(result1 == nil, result0 != nil && len(p.src) < old(len(p.src)) && len(p.loops) == old(len(p.loops)))
+//@   modifies *p, mem(p.loops)
+
+//@ func (*parser).parseExpr1
+//@   prop C11
+//@   requires pOK(p)
+//@   ensures[cursor] pOK(p) && (base(p.loops) == old(base(p.loops)) || fresh(base(p.loops))) && base(p.src) == old(base(p.src)) && off(p.src) >= old(off(p.src)) && off(p.src) + len(p.src) == old(off(p.src) + len(p.src))
+//@   ensures[success] implies(result1 == nil, result0 != nil && len(p.src) < old(len(p.src)) && len(p.loops) == old(len(p.loops)))
+//@   modifies *p, mem(p.loops)
+//@   loop 1 invariant pOK(p) && (base(p.loops) == old(base(p.loops)) || fresh(base(p.loops))) && base(p.src) == old(base(p.src)) && off(p.src) >= old(off(p.src)) && off(p.src) + len(p.src) == old(off(p.src) + len(p.src)) && len(p.loops) == old(len(p.loops)) && len(p.src) < old(len(p.src)) && x != 0 && (isnil(base(args)) || fresh(base(args)))
+//@   loop 1 decreases len(p.src)
+
+//@ func (*parser).parseOperand
+//@   prop C11
+//@   requires pOK(p)
+//@   ensures[cursor] pOK(p) && (base(p.loops) == old(base(p.loops)) || fresh(base(p.loops))) && base(p.src) == old(base(p.src)) && off(p.src) >= old(off(p.src)) && off(p.src) + len(p.src) == old(off(p.src) + len(p.src))
+//@   ensures[success] implies(result1 == nil, result0 != nil && len(p.src) < old(len(p.src)) && len(p.loops) == old(len(p.loops)))
+//@   modifies *p, mem(p.loops)
+//@   loop 1 invariant pOK(p) && (base(p.loops) == old(base(p.loops)) || fresh(base(p.loops))) && base(p.src) == old(base(p.src)) && off(p.src) >= old(off(p.src)) && off(p.src) + len(p.src) == old(off(p.src) + len(p.src)) && len(p.loops) == old(len(p.loops)) && len(p.src) < old(len(p.src)) && lhs != nil
+//@   loop 1 decreases len(p.src)
+
